@@ -227,8 +227,23 @@ impl C09 {
             return;
         }
         c.advance(t1 + unb - now);
+        // a withdrawal may pay a holder's matured claims one batch per call (how much one call pays is C01's subject):
+        // keep withdrawing while calls succeed and the claim in question is still recorded - bounded progress
+        fn keep_withdrawing(c: &mut crate::chain::World, holder: &str, batch: u64, first: &crate::ops::StepResult) {
+            if !first.ok() {
+                return;
+            }
+            for _ in 0..8 {
+                let s = crate::snap::take(c);
+                let left = s.requests.get(holder).map(|v| v.iter().any(|x| x.0 == batch)).unwrap_or(false);
+                if !left || !(Op::Withdraw { user: holder.to_string() }).apply(c).ok() {
+                    break;
+                }
+            }
+        }
         let b0 = c.bal(&holder, USEI);
         let r1 = Op::Withdraw { user: holder.clone() }.apply(&mut c);
+        keep_withdrawing(&mut c, &holder, k, &r1);
         let s3 = snap::take(&c);
         let paid1 = c.bal(&holder, USEI) - b0;
         out.count("c09.staggered_exits");
@@ -245,6 +260,7 @@ impl C09 {
         c.advance(epoch + 1);
         let b1 = c.bal(&holder, USEI);
         let r2 = Op::Withdraw { user: holder.clone() }.apply(&mut c);
+        keep_withdrawing(&mut c, &holder, k + 1, &r2);
         let mut s4 = snap::take(&c);
         let paid2 = c.bal(&holder, USEI) - b1;
         if !r2.ok() {
@@ -283,7 +299,8 @@ impl C09 {
         base.oracle_fault = Fault::Ok;
         let mut w0 = base.clone();
         let r0 = c.op.apply(&mut w0);
-        let d0 = w0.digest();
+        let d0_raw = w0.digest();
+        let mut d0_sem: Option<u64> = None;
         for f in ALL_FAULTS.iter().skip(1) {
             for (sf, of) in [(*f, *f), (*f, Fault::Ok), (Fault::Ok, *f)] {
                 let mut w1 = base.clone();
@@ -293,7 +310,8 @@ impl C09 {
                 out.count("c09.paired_fault_runs");
                 // "the same results": accepted or rejected alike, and the same world afterwards (balances, storage,
                 // staking); response attributes and which queries were made along the way are not results
-                let same = r0.ok() == r1.ok() && d0 == w1.digest();
+                // fast path: identical raw worlds; otherwise compare what queries and the chain show
+                let same = r0.ok() == r1.ok() && (d0_raw == w1.digest() || *d0_sem.get_or_insert_with(|| crate::snap::sem_digest(&w0)) == crate::snap::sem_digest(&w1));
                 if !same {
                     let (a, b) = (r0.tx.as_ref().unwrap(), r1.tx.as_ref().unwrap());
                     out.violation(
